@@ -1,6 +1,173 @@
-/-! Driver commands of the `Run` cluster.  `handle` returns `none` for commands that are not its own. -/
+import TbotVerif.Spec.Run
+import TbotVerif.Driver.Shell
+/-! Driver commands of the `Run` cluster.
+    case:  `<bash|ash> <chunk> <pre,…> <args,…> <steps> <next> <op>*`
+           steps = `.` | `<step>,…` with step = `P<hex>` | `R` | `S<ms>` | `X<status>`
+           next  = `<pre,…>/<args,…>/<out>/<status>`
+           op    = `s:<hex>:<rb>` | `l:<hex>:<rb>` | `c:<n>` | `ex:<t>:<pat,…>` | `rup:<pat|->:<t>` | `rut:<t>`
+                   | `term` | `term0` | `raise` | `w` | `probe:<k>`
+    obs:   `E=<res>/<pieces>` `O=<res>/<pieces>`* `X=<none|runtime|body|notentered>`
+           `N=<val>/<argv|!>/<pieces>` | `N=-`   `I=<line,…>` | `I=~`   (line = hex, `-` empty, `!` EOF)
+           res = `ok` | `t:<text>` | `x:<i>:<before>:<m>:<after>` | `term:<rc>:<text>` | `out:<text>` | `e:<tag>`
+    `run <case…> || <obs…>` replays the delivery sizes found in the observation on the model. -/
 namespace Driver.Run
+open _root_.Run
 
-def handle (_toks : List String) : Option String := none
+def stepOf (s : String) : Option PStep :=
+  match s.toList with
+  | 'P' :: cs => (Bytes.ofHex (String.ofList cs)).map .print
+  | ['R'] => some .readLine
+  | 'S' :: cs => (String.ofList cs).toNat?.map .sleep
+  | 'X' :: cs => (String.ofList cs).toNat?.map .exit
+  | _ => none
+
+def nextOf (s : String) : Option Shell.ShCmd :=
+  match s.splitOn "/" with
+  | [pre, args, out, st] => do
+    pure { op := .exec, pre := ← Driver.Shell.bytesList pre, args := ← Driver.Shell.bytesList args,
+           out := ← Bytes.ofHex out, status := ← st.toNat? }
+  | _ => none
+
+def opOf (s : String) : Option TOp :=
+  match s.splitOn ":" with
+  | ["s", b, rb] => do pure (.send (← Bytes.ofHex b) (← Wire.bool rb))
+  | ["l", b, rb] => do pure (.sendline (← Bytes.ofHex b) (← Wire.bool rb))
+  | ["c", n] => n.toNat?.map .sendcontrol
+  | ["ex", t, ps] => do pure (.expect (← Wire.listOf Pat.ofWire ps) (← Wire.optNat t))
+  | ["rup", p, t] => do
+    let p ← if p == "-" then some none else (Pat.ofWire p).map some
+    pure (.rup p (← Wire.optNat t))
+  | ["rut", t] => (Wire.optNat t).map .rut
+  | ["term"] => some .terminate
+  | ["term0"] => some .terminate0
+  | ["raise"] => some .raise
+  | ["w"] => some .wait
+  | ["probe", k] => k.toNat?.map .probe
+  | _ => none
+
+def caseOf (toks : List String) : Option Run.Case :=
+  match toks with
+  | kind :: chunk :: pre :: args :: steps :: next :: ops => do
+    let ash ← if kind == "ash" then some true else if kind == "bash" then some false else none
+    pure { ash := ash, chunk := ← chunk.toNat?, pre := ← Driver.Shell.bytesList pre,
+           args := ← Driver.Shell.bytesList args, steps := ← Wire.listOf stepOf steps,
+           next := ← nextOf next, ops := ← ops.mapM opOf }
+  | _ => none
+
+def tagStr (t : Tag) : String := t.name
+
+def tagOfStr : String → Option Tag
+  | "ended" => some .ended | "timeout" => some .timeout | "hang" => some .hang | "illegal" => some .illegal
+  | "assert" => some .assertion | "failure" => some .failure | "borrowed" => some .borrowed
+  | "invalid-retcode" => some .invalidRetcode | "other" => some .other
+  | _ => none
+
+def resStr : TRes → String
+  | .unit => "ok"
+  | .text t => "t:" ++ Wire.chars t
+  | .expect i b m a => s!"x:{i}:{Wire.chars b}:{Wire.chars m}:{Wire.chars a}"
+  | .term rc out => s!"term:{rc}:{Wire.chars out}"
+  | .out out => "out:" ++ Wire.chars out
+  | .err t => "e:" ++ tagStr t
+
+def resOfStr (s : String) : Option TRes :=
+  match s.splitOn ":" with
+  | ["ok"] => some .unit
+  | ["t", t] => (Wire.charsOf t).map .text
+  | ["x", i, b, m, a] => do pure (.expect (← i.toNat?) (← Wire.charsOf b) (← Wire.charsOf m) (← Wire.charsOf a))
+  | ["term", rc, out] => do pure (.term (← rc.toNat?) (← Wire.charsOf out))
+  | ["out", out] => (Wire.charsOf out).map .out
+  | ["e", t] => (tagOfStr t).map .err
+  | _ => none
+
+def sizesStr (l : List Nat) : String := Wire.sepBy "," (l.map toString)
+
+def opObsStr (o : Run.OpObs) : String := resStr o.res ++ "/" ++ sizesStr o.pieces
+
+def opObsOf (s : String) : Option Run.OpObs :=
+  match s.splitOn "/" with
+  | [r, ps] => do pure { res := ← resOfStr r, pieces := ← Wire.listOf String.toNat? ps }
+  | _ => none
+
+def exitStr : ExitTag → String
+  | .none => "none" | .runtime => "runtime" | .body => "body" | .notEntered => "notentered"
+
+def exitOf : String → Option ExitTag
+  | "none" => some .none | "runtime" => some .runtime | "body" => some .body | "notentered" => some .notEntered
+  | _ => none
+
+def nextStr : Option NextObs → String
+  | none => "-"
+  | some n => "/".intercalate [Driver.Shell.valStr n.val,
+      (match n.argv with | none => "!" | some a => Wire.sepBy "," (a.map Bytes.toHex)), sizesStr n.pieces]
+
+def nextObsOf (s : String) : Option (Option NextObs) :=
+  if s == "-" then some none else
+  match s.splitOn "/" with
+  | [v, argv, ps] => do
+    let argv ← if argv == "!" then some none else (Driver.Shell.bytesList argv).map some
+    pure (some { val := ← Driver.Shell.valOf v, argv := argv, pieces := ← Wire.listOf String.toNat? ps })
+  | _ => none
+
+def lineStr : Option Bytes → String
+  | none => "!"
+  | some b => Bytes.toHex b
+
+def lineOfStr (s : String) : Option (Option Bytes) :=
+  if s == "!" then some none else (Bytes.ofHex s).map some
+
+def linesStr : Option (List (Option Bytes)) → String
+  | none => "~"
+  | some ls => Wire.sepBy "," (ls.map lineStr)
+
+def linesOf (s : String) : Option (Option (List (Option Bytes))) :=
+  if s == "~" then some none else (Wire.listOf lineOfStr s).map some
+
+def obsStr (o : Obs) : String :=
+  " ".intercalate (["E=" ++ opObsStr o.enter] ++ o.ops.map (fun x => "O=" ++ opObsStr x)
+    ++ ["X=" ++ exitStr o.exit, "N=" ++ nextStr o.next, "I=" ++ linesStr o.lines])
+
+def dropPrefix (p s : String) : Option String :=
+  if s.startsWith p then some (s.drop p.length).toString else none
+
+def obsOf (toks : List String) : Option Obs :=
+  match toks with
+  | e :: rest =>
+    let opsT := rest.takeWhile (·.startsWith "O=")
+    match rest.dropWhile (·.startsWith "O=") with
+    | [x, n, i] => do
+      pure { enter := ← (dropPrefix "E=" e).bind opObsOf,
+             ops := ← opsT.mapM fun t => (dropPrefix "O=" t).bind opObsOf,
+             exit := ← (dropPrefix "X=" x).bind exitOf,
+             next := ← (dropPrefix "N=" n).bind nextObsOf,
+             lines := ← (dropPrefix "I=" i).bind linesOf }
+    | _ => none
+  | _ => none
+
+/-- the delivery sizes of an observation, per call: enter, operations, follow-up command -/
+def piecesOf (o : Obs) : List (List Nat) :=
+  [o.enter.pieces] ++ o.ops.map (·.pieces) ++ (match o.next with | some n => [n.pieces] | none => [])
+
+def handle (toks : List String) : Option String :=
+  match toks with
+  | "run" :: rest =>
+    let (ct, ot) := Driver.Shell.splitAt2 rest "||"
+    some (match caseOf ct with
+    | some c =>
+      (match obsOf ot with
+       | some o => obsStr (_root_.Run.run c (piecesOf o))
+       | none => if ot.isEmpty then obsStr (_root_.Run.run c []) else "bad-op")
+    | none => "bad-op")
+  | "spec" :: "C10" :: rest =>
+    let (ct, ot) := Driver.Shell.splitAt2 rest "||"
+    some (match caseOf ct, obsOf ot with
+    | some c, some o => if Spec.C10 c o then "1" else "0"
+    | _, _ => "bad-op")
+  | "explain" :: "C10" :: rest =>
+    let (ct, ot) := Driver.Shell.splitAt2 rest "||"
+    some (match caseOf ct, obsOf ot with
+    | some c, some o => (_root_.Run.explain c o).replace " " "_"
+    | _, _ => "bad-op")
+  | _ => none
 
 end Driver.Run
